@@ -521,6 +521,20 @@ func (x *Exec) trCall(t *CCall, env *Env) Val {
 		cur := x.heapGet(env.cur, key, srt)
 		old := x.heapGet(env.old, key, srt)
 		return Val{T: tBool, S: fmt.Sprintf("(forall ((r Int)) (! (=> (and (> r 0) (<= r allocBase0)) (= (select %s r) (select %s r))) :pattern ((select %s r))))", cur, old, cur)}
+	case "chClosed":
+		return Val{T: tBool, S: sel(x.chGet(env.cur, chClosedKey, arg(0).T), arg(0).S)}
+	case "chFull":
+		return Val{T: tBool, S: sel(x.chGet(env.cur, chFullKey, arg(0).T), arg(0).S)}
+	case "chCap":
+		return Val{T: tInt, S: sel(x.chGet(env.cur, chCapKey, arg(0).T), arg(0).S)}
+	case "chVal":
+		// the buffered value of a channel of channels
+		c := arg(0)
+		et := types.Type(tInt)
+		if ct, ok := under(c.T).(*types.Chan); ok {
+			et = ct.Elem()
+		}
+		return Val{T: et, S: sel(x.chGet(env.cur, chValKey, c.T), c.S)}
 	case "fnIs":
 		// fnIs(v, "pkg.(*T).m$bound"): the function value v is that function (bound method or closure)
 		lit, ok := t.Args[1].(*CStr)
